@@ -496,6 +496,16 @@ def r6_truncation_warning(program, rep):
                 elif (opn == "Lt" and p) or (opn == "GtE" and not p):
                     guard = (fl.sym(c.comparators[0], a), fl.sym(c.left, a),
                              a)
+        if guard is None and any(
+                isinstance(c, ast.Compare) and
+                isinstance(c.ops[0], (ast.NotEq, ast.Eq))
+                for c, p, a in fl.facts(wn)):
+            # e.g. 'transferred != requested' with transferred = min(...):
+            # an equivalent test these rules do not read
+            raise AnalysisError("%s: the truncation warning is guarded by "
+                                "an (in)equality test, not by a comparison "
+                                "of the bytes requested with the bytes "
+                                "available" % name)
         rep.check(guard is not None, "C13-R6", inst, "the warning is "
                   "emitted only under 'requested > available'",
                   construct="%s warn guard" % name, node=warns[0])
